@@ -17,7 +17,8 @@ import values_h as V
 from common import coq_failing, rng_for, CoqError, g_list, g_bool
 
 DTYPES = [('lv_universe', 'V1', ['a', 'b']), ('lv_universe', 'V2', ['x']), ('lv_universe', 'V', ['x']),
-          ('lv_universe', 'VV', ['x']), ('lv_universe', 'VPost', ['x']), ('lv_universe', 'V0', []), ('lv_universe', 'VInh', ['a', 'b', 'c'])]
+          ('lv_universe', 'VV', ['x']), ('lv_universe', 'VPost', ['x']), ('lv_universe', 'V0', []), ('lv_universe', 'VInh', ['a', 'b', 'c']),
+          ('lv_universe', 'VUnder', ['_hidden', 'x_'])]
 
 
 def gen_task(rng, depth=0):
